@@ -18,7 +18,10 @@ def op_strategy(focus, pool):
     ti = st.integers(0, 11)
     wi = st.integers(-NW, -1)
     own = _w([(3, ti), (2, wi)]) if focus != 'membership' else _w([(2, ti), (3, wi)])
-    elem = _w([(8, ti), (1, st.none())])
+    foreign = st.sampled_from(['F:id', 'F:str', 'F:wbs', 'F:obj', 'F:dict'])
+    elem = _w([(16, ti), (2, st.none()), (1, foreign)])
+    tif = _w([(15, ti), (1, foreign)])          # single argument: now and then something that is not a task
+    index = _w([(6, st.integers(-1, 4)), (1, st.sampled_from([1.0, 0.0, 0.5, 2.0, 1.5, None, '1']))])
     seq = st.lists(elem, max_size=3)
     seq2 = st.lists(ti, min_size=2, max_size=3)
     idl = st.lists(st.sampled_from(pool + [99]), max_size=3)
@@ -34,12 +37,13 @@ def op_strategy(focus, pool):
     hier = [
         T(J('set_parent'), ti, opt, flag_any),
         T(J('set_children'), own, seq, form, flag_any),
-        T(J('append'), own, ti, flag_any),
+        T(J('append'), own, tif, flag_any),
         T(J('adopt_children'), own, own, flag_any),
-        T(J('insert'), own, ti, st.integers(-1, 4), flag_any),
+        T(J('insert'), own, ti, index, flag_any),
         T(J('remove'), own, ti, flag_any),
         T(J('move'), own, st.lists(ti, min_size=1, max_size=2), opt, opt, flag_any),
-        T(J('sort'), own, st.sampled_from(['id', 'name', 'rank', 'name', 'rank', 'zzz', ('name', 'id')]), st.booleans(), J('')),
+        T(J('sort'), own, st.sampled_from(['id', 'name', 'rank', 'name', 'rank', 'zzz', ('name', 'id'), ('rank',), ('prio',), 'prio', ('name', 'prio'),
+                                           'label', ('prio', 'name')]), st.booleans(), J('')),
         T(J('reorder'), own, idl, J('')),
         T(J('remove_all'), own, idl, J('')),
         T(J('floordiv'), own, seq, flag_any),
@@ -52,9 +56,9 @@ def op_strategy(focus, pool):
     deps = [
         T(J('set_preds'), ti, seq, form, flag_any),
         T(J('set_succs'), ti, seq, form, flag_any),
-        T(J('pred_append'), ti, ti, flag_any),
+        T(J('pred_append'), ti, tif, flag_any),
         T(J('pred_remove'), ti, ti, flag_any),
-        T(J('succ_append'), ti, ti, flag_any),
+        T(J('succ_append'), ti, tif, flag_any),
         T(J('succ_remove'), ti, ti, flag_any),
         T(J('pred_remove_all'), ti, idl, J('')),
         T(J('succ_remove_all'), ti, idl, J('')),
@@ -173,7 +177,8 @@ def history(draw, focus='general', max_ops=24, large=False):
         def spread(o):
             return [((x * k + i) % u if isinstance(x, int) and not isinstance(x, bool) and x >= 0 and j > 0 and o[0] not in ('insert',) else x) for j, (i, x) in enumerate(zip(range(len(o)), o))]
         ops = [tuple(spread(list(o))) for o in ops]
-    case = {'ids': ids, 'nw': NW, 'held': draw(st.sampled_from([0, 0, 1, 2])), 'iter': draw(st.integers(0, 3)) == 0, 'ops': [list(o) for o in pre] + [list(o) for o in ops]}
+    case = {'ids': ids, 'nw': NW, 'held': draw(st.sampled_from([0, 0, 1, 2])), 'iter': draw(st.integers(0, 3)) == 0,
+            'sub': draw(st.integers(0, 3)) == 0, 'ops': [list(o) for o in pre] + [list(o) for o in ops]}
     if strids:
         f = lambda i: 'k%s' % i
         case['ids'] = [f(i) for i in ids]
@@ -234,7 +239,7 @@ def small_alphabet(reduced=True):
         for s in seqs1 + ([[0, 1], [1, 2]] if reduced else seqs2):
             for b, a in [(None, None)] + [(x, None) for x in ts] + [(None, x) for x in ts] + [(0, 1)]:
                 ops.append(('move', o, s, b, a, ''))
-        for key in ('id', 'name', 'rank') + (() if reduced else ('zzz',)):
+        for key in ('id', 'name', 'rank') + (() if reduced else ('zzz', 'prio', ('prio',), ('name', 'prio'), ('rank',))):
             for rev in (False, True):
                 ops.append(('sort', o, key, rev, ''))
         for ids in ([[1], [2, 1], [3, 2], [9]] if reduced else [[1], [2], [3], [1, 2], [2, 1], [3, 2], [2, 3], [9], [1, 1]]):
@@ -263,10 +268,38 @@ def small_alphabet(reduced=True):
             ops.append(('list_rshift', o, s, ''))
         for p in (None, 0, 2):
             ops.append(('bulk_parent', o, [1, 2], p, ''))
+    # arguments that are not tasks, indexes that are not integers
+    for t in ts:
+        for f in ('F:id', 'F:wbs'):
+            for s in ([f], [(t + 1) % 4, f], [f, (t + 1) % 4]):
+                ops.append(('set_preds', t, s, 'list', ''))
+                ops.append(('set_succs', t, s, 'list', ''))
+                ops.append(('lshift', t, s, ''))
+                ops.append(('rshift', t, s, ''))
+            ops.append(('pred_append', t, f, ''))
+            ops.append(('succ_append', t, f, ''))
+    for o in owners:
+        for f in ('F:id', 'F:wbs'):
+            for s in ([f], [1, f], [f, 2]):
+                ops.append(('set_children', o, s, 'list', ''))
+                ops.append(('floordiv', o, s, ''))
+                ops.append(('move', o, s, 0, None, ''))
+            ops.append(('append', o, f, ''))
+        for t in ts:
+            for i in (0.0, 1.0, 0.5, None, '0'):
+                ops.append(('insert', o, t, i, ''))
     ops.append(('new_task', 1, 0, None, None, None, ''))
     ops.append(('new_task', 3, None, [0, 1], None, None, ''))
     ops.append(('new_task', 2, 1, [2], [0], None, ''))
     ops.append(('new_task', 4, None, None, [0], [1], ''))
+    for p in ts:
+        # constructor calls that name the same task in two roles, or a clashing id
+        ops.append(('new_task', 4, p, None, [p], None, ''))
+        ops.append(('new_task', 4, p, None, None, [p], ''))
+        ops.append(('new_task', 4, None, [p], [p], None, ''))
+        ops.append(('new_task', 4, p, [(p + 1) % 4], None, None, ''))
+        ops.append(('new_task', 2, p, None, None, None, ''))
+        ops.append(('new_task', 4, None, None, [p], [p], ''))
     return ops
 
 
@@ -337,3 +370,10 @@ def small_histories(length, reduced=True, tiny=False):
             for held in (True,):      # held mode alternates kept and fresh list objects, so it covers both
                 yield {'ids': SHAPE_IDS.get(name, SMALL_IDS), 'nw': SMALL_NW, 'shape': name, 'held': held,
                        'ops': [list(o) for o in shape] + [list(o) for o in combo]}
+    if length == 1 and not tiny:
+        # the same single calls on tasks of a user subclass of Task (hierarchy / order calls only)
+        for name, shape in SHAPES.items():
+            for o in alpha:
+                if o[0] in ('set_parent', 'set_children', 'floordiv', 'append', 'insert', 'move', 'sort', 'reorder', 'remove', 'new_task'):
+                    yield {'ids': SHAPE_IDS.get(name, SMALL_IDS), 'nw': SMALL_NW, 'shape': name, 'held': True, 'sub': True,
+                           'ops': [list(x) for x in shape] + [list(o)]}
